@@ -467,11 +467,7 @@ class TexNode(object):
         \textit{keep me!}
         """
 
-        for arg in self.parent.args:
-            if self in arg.contents:
-                arg.remove(self)
-                return
-        self.parent.remove(self)
+        self.parent._holder_of(self.expr).remove(self.expr)
 
     def find(self, name=None, **attrs):
         r"""First descendant node matching criteria.
@@ -588,13 +584,19 @@ class TexNode(object):
         \item Bye
         \end{itemize}
         """
-        for arg in self.expr.args:
-            if child.expr in arg._contents:
-                arg.insert(arg.remove(child.expr), *nodes)
-                return
-        self.expr.insert(
-            self.expr.remove(child.expr),
-            *nodes)
+        holder = self._holder_of(child.expr)
+        holder.insert(holder.remove(child.expr), *nodes)
+
+    def _holder_of(self, expr):
+        """Argument group or expression of this node whose contents hold
+        ``expr``: the object itself if present, else the first equal one."""
+        holders = list(self.expr.args) + [self.expr]
+        for same in (lambda a, b: a is b, lambda a, b: a == b):
+            for holder in holders:
+                contents = getattr(holder, '_contents', ())
+                if any(same(content, expr) for content in contents):
+                    return holder
+        return self.expr
 
     def search_regex(self, pattern, **kwargs):
         r"""Find objects which match a regular expression.
@@ -841,8 +843,12 @@ class TexExpr(object):
         TexExpr('textbf', [])
         """
         self._assert_supports_contents()
-        index = self._contents.index(expr)
-        self._contents.remove(expr)
+        for index, content in enumerate(self._contents):
+            if content is expr:  # the object itself, not an equal twin
+                break
+        else:
+            index = self._contents.index(expr)
+        del self._contents[index]
         return index
 
     def _supports_contents(self):
